@@ -141,6 +141,27 @@ V("f-ci-nonneg-dropped", "fire", C_PROPS + ["C17"], CI, "        csp.extend(gteZ
 V("f-ci-selffulfilling-polarity", "fire", C_PROPS, CI, "        if selffullfilling:\n            return False\n", "        if selffullfilling:\n            return True\n")
 V("f-ci-summation-empty-set", "fire", C_PROPS + ["C17"], CI, "                interim.append(Int(0))  # Or use 0 directly\n", "                interim.append(Int(1))  # Or use 0 directly\n")
 
+# ---------------------------------------------------------------------------------- wrappers (inference.py)
+INF = "inference/inference.py"
+V("s-inf-shortcut-form", "silent", ["C01", "C09"], INF,
+  "        if is_unsat(query.antecedence) or is_unsat(\n            And(query.antecedence, Not(query.consequence))\n        ):\n            logger.debug(\"general_inference query selffullfilling\")\n            return True\n        else:\n            return self._inference(query, weakly, deadline)\n",
+  "        if is_unsat(And(query.antecedence, Not(query.consequence))):\n            return True\n        return self._inference(query, weakly, deadline)\n",
+  note="UNSAT(A) is subsumed by UNSAT(A∧¬B); else dropped")
+V("s-inf-row-local", "silent", ["C13", "C14"], INF, "                result_dict[index] = (index, result, False, time)\n", "                row = (index, result, False, time)\n                result_dict[index] = row\n")
+V("s-inf-assert-form", "silent", ["C06"], INF, "        assert cons != False, \"belief base inconsistent\"\n", "        assert cons is not False, \"belief base inconsistent\"\n")
+V("f-inf-shortcut-dropped-guard", "fire", ["C01", "C02", "C09"], INF, "        if is_unsat(query.antecedence) or is_unsat(\n            And(query.antecedence, Not(query.consequence))\n        ):", "        if is_unsat(query.antecedence):")
+V("f-inf-shortcut-wrong-formula", "fire", ["C01", "C02", "C09"], INF, "            And(query.antecedence, Not(query.consequence))\n        ):\n            logger.debug(", "            And(query.antecedence, query.consequence)\n        ):\n            logger.debug(")
+V("f-inf-timeout-row-answer", "fire", ["C14"], INF, "                result_dict[index] = (\n                    index,\n                    False,\n                    True,\n", "                result_dict[index] = (\n                    index,\n                    True,\n                    True,\n")
+V("f-inf-timeout-row-flag", "fire", ["C14"], INF, "                result_dict[index] = (\n                    index,\n                    False,\n                    True,\n", "                result_dict[index] = (\n                    index,\n                    False,\n                    False,\n")
+V("f-inf-worker-timeout-flag", "fire", ["C14"], INF, "            mp_return_dict[index] = (index, False, True, float(timeout * 1000))\n", "            mp_return_dict[index] = (index, False, False, float(timeout * 1000))\n")
+V("f-inf-row-key", "fire", ["C13"], INF, "                result_dict[index] = (index, result, False, time)\n", "                result_dict[str(query)] = (index, result, False, time)\n")
+V("f-inf-done-before-work", "fire", ["C13", "C14"], INF,
+  "            self._preprocess_belief_base(self.epistemic_state[\"weakly\"], deadline)\n", "            self.epistemic_state[\"preprocessing_done\"] = True\n            self._preprocess_belief_base(self.epistemic_state[\"weakly\"], deadline)\n")
+V("f-inf-no-join", "fire", ["C13"], INF, "                    p.terminate()\n                    p.join()  # Ensure the process has terminated\n", "                    p.terminate()\n")
+V("f-inf-terminated-row-position", "fire", ["C13"], INF, "                    mp_return_dict[i] = (\n                        i,\n", "                    mp_return_dict[len(mp_return_dict)] = (\n                        i,\n")
+V("f-inf-refuse-dropped", "fire", ["C06"], INF, "        assert cons != False, \"belief base inconsistent\"\n", "        pass\n")
+V("f-inf-timed-out-preprocessing-answers", "fire", ["C14"], INF, "                i: (i, False, False, 0.0) for i, q in queries.items()\n", "                i: (i, True, False, 0.0) for i, q in queries.items()\n")
+
 
 def main():
     hv = os.path.join(HERE, "harvested.json")
